@@ -90,6 +90,23 @@ theorem pathLoop_sp {f : Nat} {ts ts' : PState} {ids : List Ident} (h : pathLoop
       obtain ⟨rfl, rfl⟩ := h
       exact Sp.nil _
 
+/-- the look-ahead of `parseType` on an identifier: it reads as a simple type name and the NEXT token is not `.` -/
+theorem lookaheadSimpleType_cons {u : Token} {r : PState} (hu : tk u.kind = .ident) :
+    lookaheadSimpleType (u :: r) = ((simpleName? u).isSome && cur r != .dot) := by
+  cases hq : simpleName? u <;> simp [lookaheadSimpleType, lookaheadKind, hu, hq]
+
+/-- the loop returns no identifier only when the current token is not a `.` -/
+theorem pathLoop_nil {f : Nat} {ts ts' : PState} (h : pathLoop f ts = .ok ([], ts')) : cur ts ≠ .dot := by
+  cases f with
+  | zero => cases h
+  | succ f =>
+    simp only [pathLoop] at h
+    split at h
+    · obtain ⟨⟨i, r⟩, _, h2⟩ := Res.bind_eq_ok.1 h
+      obtain ⟨⟨more, r2⟩, _, h3⟩ := Res.bind_eq_ok.1 h2
+      simp at h3
+    · assumption
+
 theorem parseNamedType_sp {f : Nat} {ts ts' : PState} {t : Ty} (h : parseNamedType f ts = .ok (t, ts'))
     (hs : lookaheadSimpleType ts = false) : Sp ts ts' (yieldT t) ∧ wf t = true := by
   unfold parseNamedType parseIdentOrPath at h
@@ -101,12 +118,17 @@ theorem parseNamedType_sp {f : Nat} {ts ts' : PState} {t : Ty} (h : parseNamedTy
   obtain ⟨rfl, rfl⟩ := h2
   refine ⟨((parseIdent_sp hi).append (pathLoop_sp hl)).cast (by simp [yieldT, yieldPath_cons]), ?_⟩
   obtain ⟨u, rfl, hu, rfl⟩ := parseIdent_ok hi
-  simp only [lookaheadSimpleType, cur_cons, hu, ne_eq, not_true_eq_false, if_false, hd_cons] at hs
-  simp only [wf]
-  rw [← simpleName?_eq (tk_ident.1 hu)]
-  cases hq : simpleName? u with
-  | none => rfl
-  | some n => rw [hq] at hs; cases hs
+  cases more with
+  | cons b more => rfl
+  | nil =>
+    -- a one-component path: the token after the identifier is not `.`, so the identifier is no simple type name
+    have hnd : cur r1 ≠ .dot := pathLoop_nil hl
+    rw [lookaheadSimpleType_cons hu] at hs
+    simp only [wf]
+    rw [← simpleName?_eq (tk_ident.1 hu)]
+    cases hq : simpleName? u with
+    | none => rfl
+    | some n => simp [hq, hnd] at hs
 
 /-! ## the mutually recursive productions -/
 
